@@ -1,6 +1,7 @@
 from operator import xor
 
 import numpy as np
+from pb_bss import _verif
 from cached_property import cached_property
 from dataclasses import dataclass
 from pb_bss.distribution.mixture_model_utils import (
@@ -178,6 +179,7 @@ class CWMMTrainer:
                 saliency=saliency,
                 weight_constant_axis=weight_constant_axis,
             )
+            _verif.trace(self, iteration, model, affiliation, None)
 
         return model
 
